@@ -5,6 +5,7 @@ import EaselModel.Weights.Adv
 import EaselModel.Weights.Deal64
 import EaselModel.Weights.Tree
 import EaselModel.Weights.Engine
+import EaselModel.Weights.SymfracRule
 import EaselModel.Weights.Distance
 /-! Line-protocol driver for the C16 model (`Float` instance of `EaselModel.Weights`). Mirrors harness/h_weights.c. -/
 open EaselModel EaselModel.Proto EaselModel.Weights EaselModel.Random
@@ -45,8 +46,11 @@ def nlist (xs : List Nat) : String := if xs.isEmpty then "-" else ",".intercalat
 /-- `(int) ceil( fragthresh * (float) msa->alen )` -/
 def minspanOf (ft : Float32) (alen : Nat) : Int := ((ft * Float32.ofNat alen).toFloat.ceil).toInt64.toInt
 
-/-- `((float) ct[apos][K] / (float) tot) < symfrac` -/
-def ruleOf (sf : Float32) (gap tot : Nat) : Bool := Float32.ofNat gap / Float32.ofNat tot < sf
+/-- the consensus-column test, in the form the working tree has it (`Weights/SymfracRule.lean`, regenerated every run):
+    `((float) ct[apos][K] / (float) tot) < symfrac`, or `tot > 0 && ((float) (tot - ct[apos][K]) / (float) tot) >= symfrac` -/
+def ruleOf (sf : Float32) (gap tot : Nat) : Bool :=
+  if symfracResidueForm then decide (tot > 0) && Float32.ofNat (tot - gap) / Float32.ofNat tot ≥ sf
+  else Float32.ofNat gap / Float32.ofNat tot < sf
 
 def sortAsc (xs : List Nat) : List Nat := (xs.toArray.qsort (· < ·)).toList
 
